@@ -81,7 +81,8 @@ func LoadTestdata(repo string) ([]Doc, error) {
 
 // ---- shared helpers --------------------------------------------------------
 
-var words = []string{"the", "quick", "brown", "fox", "jumps", "over", "lazy", "dog", "été", "naïve", "Ω", "日本", "&amp;", "&lt;3", "a&nbsp;b", "--", "1", "42", "Hello,", "world!", "¿qué?", "ß"}
+// words mixes 1-, 2-, 3- and 4-byte UTF-8 sequences (a delivery split can land inside any of them), entities and punctuation
+var words = []string{"the", "quick", "brown", "fox", "jumps", "over", "lazy", "dog", "été", "naïve", "Ω", "日本", "&amp;", "&lt;3", "a&nbsp;b", "--", "1", "42", "Hello,", "world!", "¿qué?", "ß", "🎵", "𝄞clef", "e\u0301"}
 
 func sentence(r *prng.R, min, max int) string {
 	n := r.Range(min, max)
@@ -411,8 +412,16 @@ func GenTTML(r *prng.R, idx int) Doc {
 	if r.Bool(0.6) {
 		b.WriteString(`<?xml version="1.0" encoding="UTF-8"?>` + nl)
 	}
-	fmt.Fprintf(&b, `<tt xml:lang="%s" xmlns="http://www.w3.org/ns/ttml" xmlns:tts="http://www.w3.org/ns/ttml#styling" xmlns:ttm="http://www.w3.org/ns/ttml#metadata" xmlns:ttp="http://www.w3.org/ns/ttml#parameter" ttp:frameRate="%d" ttp:tickRate="%d">%s`,
-		r.Pick("en", "fr", "ja", "xx"), r.PickInt(24, 25, 30), r.PickInt(1000, 10000000), nl)
+	// frame and tick rates are optional: a document that uses frames / ticks without declaring the rate is legal input too
+	rates := ""
+	if r.Bool(0.75) {
+		rates += fmt.Sprintf(` ttp:frameRate="%d"`, r.PickInt(24, 25, 30))
+	}
+	if r.Bool(0.7) {
+		rates += fmt.Sprintf(` ttp:tickRate="%d"`, r.PickInt(1000, 10000000))
+	}
+	fmt.Fprintf(&b, `<tt xml:lang="%s" xmlns="http://www.w3.org/ns/ttml" xmlns:tts="http://www.w3.org/ns/ttml#styling" xmlns:ttm="http://www.w3.org/ns/ttml#metadata" xmlns:ttp="http://www.w3.org/ns/ttml#parameter"%s>%s`,
+		r.Pick("en", "fr", "ja", "xx"), rates, nl)
 	b.WriteString(ind(1) + "<head>" + nl)
 	if r.Bool(0.6) {
 		b.WriteString(ind(2) + "<metadata>" + nl + ind(3) + "<ttm:title>" + asciiSentence(r, 1, 3) + "</ttm:title>" + nl + ind(3) + "<ttm:copyright>(c) " + asciiSentence(r, 1, 2) + "</ttm:copyright>" + nl + ind(2) + "</metadata>" + nl)
@@ -763,4 +772,57 @@ func LongLine(format string, c, at int, where string, lineLen int) Doc {
 		}
 	}
 	return Doc{Name: fmt.Sprintf("longline-%s-%s-at%d-len%d", format, where, at, lineLen), Format: format, Data: []byte(b.String()), Cues: c, Gen: true}
+}
+
+// LongLineBase returns a small, structurally rich document of a line-oriented
+// format (every kind of section the reader knows, plus one it does not) with
+// its number of cues. InsertLine puts an extra line before line k of it.
+func LongLineBase(format string) (doc []byte, cues int) {
+	switch format {
+	case "srt":
+		return []byte("1\n00:00:01,000 --> 00:00:02,000\nfirst <i>cue</i>\n\n2\n00:00:03,000 --> 00:00:04,000 X1:1 X2:2\nsecond\nline\n\n3\n00:00:05,000 --> 00:00:06,000\nthird\n\n4\n00:00:07,000 --> 00:00:08,000\nfourth\n\n5\n00:00:09,000 --> 00:00:10,000\nfifth\n"), 5
+	case "vtt":
+		return []byte("WEBVTT - title\nX-TIMESTAMP-MAP=LOCAL:00:00:00.000,MPEGTS:900000\n\nNOTE a comment\nover two lines\n\nSTYLE\n::cue(.a) {\n  color: red;\n}\n\nRegion: id=r0 width=40% lines=3 regionanchor=0%,100% viewportanchor=10%,90% scroll=up\n\n1\n00:00:01.000 --> 00:00:02.000 align:left region:r0\n<v Bob>first\n\nNOTE between cues\n\n2\n00:00:03.000 --> 00:00:04.000\nsecond\nline\n\n00:00:05.000 --> 00:00:06.000 line:10%\nthird <00:00:05.500>timed\n\n4\n00:00:07.000 --> 00:00:08.000\n<c.yellow>fourth</c>\n\n5\n00:00:09.000 --> 00:00:10.000\nfifth\n"), 5
+	case "ssa":
+		return []byte("[Script Info]\n; a comment\nTitle: base\nScriptType: v4.00+\nPlayResX: 640\n\n[V4+ Styles]\nFormat: Name, Fontname, Fontsize, PrimaryColour, Bold\nStyle: Default,Arial,20,&H00FFFFFF,0\nStyle: Alt,Courier,18,&H0000FFFF,-1\n\n[Fonts]\nfontname: foo.ttf\nM1234567890ABCDEF\n\n[Graphics]\nfilename: logo.bmp\n\n[Events]\nFormat: Layer, Start, End, Style, Name, MarginL, MarginR, MarginV, Effect, Text\nDialogue: 0,0:00:01.00,0:00:02.00,Default,,0,0,0,,first\nComment: 0,0:00:01.00,0:00:02.00,Default,,0,0,0,,not a cue\nDialogue: 0,0:00:03.00,0:00:04.00,Alt,Bob,0,0,0,,second\\Nline\nDialogue: 0,0:00:05.00,0:00:06.00,Default,,0,0,0,,{\\an8}third\nDialogue: 0,0:00:07.00,0:00:08.00,Default,,0,0,0,,fourth, with, commas\nDialogue: 0,0:00:09.00,0:00:10.00,*Default,,0,0,0,,fifth\n"), 5
+	}
+	panic("corpus: LongLineBase: unsupported format " + format)
+}
+
+// InsertLine returns base with a line of n bytes (fill repeated) inserted before its k-th line (k = number of lines: appended).
+func InsertLine(base []byte, k, n int, fill byte) []byte {
+	lines := strings.SplitAfter(string(base), "\n")
+	if k > len(lines) {
+		k = len(lines)
+	}
+	var b strings.Builder
+	for i, l := range lines {
+		if i == k {
+			b.WriteString(strings.Repeat(string(fill), n))
+			b.WriteString("\n")
+		}
+		b.WriteString(l)
+	}
+	if k == len(lines) {
+		b.WriteString(strings.Repeat(string(fill), n))
+		b.WriteString("\n")
+	}
+	return []byte(b.String())
+}
+
+// CountLines is the number of line positions of base (for InsertLine).
+func CountLines(base []byte) int { return len(strings.SplitAfter(string(base), "\n")) }
+
+// StripTSTables removes the PAT / PMT packets (PID 0 and the PMT PID the muxer uses) from a transport stream:
+// a segment of a stream in which no program map is present.
+func StripTSTables(ts []byte) []byte {
+	var out []byte
+	for i := 0; i+188 <= len(ts); i += 188 {
+		pid := (int(ts[i+1])&0x1f)<<8 | int(ts[i+2])
+		if pid == 0 || pid == 0x1000 {
+			continue
+		}
+		out = append(out, ts[i:i+188]...)
+	}
+	return out
 }
